@@ -657,6 +657,7 @@ SEEDS = [
     ('select-window', 'select', {'s.sel.items.0.e': 'func', 's.sel.items.0.e.f.over': True, 's.sel.items.0.alias': 'as'}),
     ('select-union', 'select', {'s.sel.setop': 'union all', 's.sel.where': True}),
     ('select-except-order', 'select', {'s.sel.setop': 'except'}),
+    ('select-union-both-where', 'select', {'s.sel.setop': 'union all', 's.sel.where': True, 's.sel.u.where': True}),
     ('select-operators', 'select', {'s.sel.items.0.e': 'binop', 's.sel.items.0.e.l': 'col', 's.sel.items.0.e.r': 'num',
                                     's.sel.items.n': 2, 's.sel.items.1.e': 'concat', 's.sel.where': True}),
     ('select-cast-array-neg', 'select', {'s.sel.items.n': 3, 's.sel.items.0.e': 'cast', 's.sel.items.1.e': 'array',
